@@ -20,6 +20,8 @@ EMU_CFG = {
     "E-neon": '--cfg memchr_emu --cfg memchr_emu_arch="aarch64" --cfg memchr_emu_feature="neon"',
     "E-wasm": '--cfg memchr_emu --cfg memchr_emu_arch="wasm32" --cfg memchr_emu_feature="simd128"',
     "E-none": '--cfg memchr_emu --cfg memchr_emu_arch="none"',
+    # aarch64 WITHOUT the neon target feature (soft-float targets): the dispatcher's fallback arm
+    "E-a64nn": '--cfg memchr_emu --cfg memchr_emu_arch="aarch64"',
 }
 LEVELS = {"N-auto": "auto", "N-sse2": "sse2", "N-fb": "fb"}
 # the same harness without debug assertions / overflow checks (what a release build of a user really runs): C05
